@@ -100,6 +100,14 @@ func generate(w *mon.W) {
 	for _, src := range c04.SkeletonSources() {
 		do(src, nil)
 	}
+	// every function name of the dialect (passed through by name) with the
+	// argument lists such functions are called with
+	for _, fn := range append(append([]string{}, gen.DialectFuncs...), "f", "date", "timespan", "coalesce", "indexof", "strcat_delim", "iff", "strcat", "not") {
+		for _, args := range []string{"", "x", "x, 0", "x, 1", "x, 0, 1", "0", "'s', 0", "x, -1", "x, 0.0", "2024", "x, y, z, w", "x, 'a', 'b'", "(x), (0)", "x,\n 0"} {
+			do("T | extend r = "+fn+"("+args+") | project r", nil)
+			do("T | where "+fn+"("+args+") == 1 | summarize n = count() by k = "+fn+"("+args+")", nil)
+		}
+	}
 	// the directed join families of C03, and typed expressions at every
 	// expression position (join conditions included)
 	for _, p := range c03.DirectedPipelines(w.Seed, w.Pick(1_500, 40_000)) {
